@@ -93,7 +93,7 @@ func runModel(c *core.Ctx, vals []M, sws []*Switch, cfg, missingKey string, devi
 			n := 0
 			res, err := tlc.Run(tlc.Opts{
 				SpecDir: filepath.Join(core.VerifRoot, "spec", "Match"), Module: "MC_Match", Cfg: cfg,
-				Scratch: c.Scratch, Workers: w, Timeout: 12 * time.Minute, HeapMB: 5000, Coverage: coverage,
+				Scratch: c.Scratch, Workers: w, Timeout: 20 * time.Minute, HeapMB: 5000, Coverage: coverage,
 				Extra: map[string][]byte{"vals.ndjson": vb.Bytes(), "switches.ndjson": sb.Bytes(), "MC_Match.tla": []byte(mc)},
 				OnGen: func(rec []byte) {
 					var p Pred
@@ -365,6 +365,9 @@ func fixInts(x any) any {
 }
 
 func run(c *core.Ctx) error {
+	if c.Replay != "" {
+		return replay(c)
+	}
 	vals := ValuePool()
 	uni := Universe(c.Rand, c.Pick(27, 81), c.Pick(150, 1500))
 	c.Logf("instance: %d values (depth <= 2), %d patterns (all leaves, all depth-1 forms, seeded depth-2)", len(vals), len(uni))
@@ -411,6 +414,25 @@ func run(c *core.Ctx) error {
 		ps := []M{uni[c.Rand.Intn(len(uni))], uni[c.Rand.Intn(len(uni))]}
 		add(anyTy, []M{ps[0], ps[1]}, "switch")
 		add(anyTy, []M{ps[1], ps[0]}, "switch")
+	}
+	// typed scrutinees: the compiler chooses typed method calls / subscripts from the static type
+	typedTys := [][]string{{"Int"}, {"Int", "String", "nil"}, {"P"}, {"P", "Q"}, {"Int", "Float"}, {"Bool", "nil"}, {"String", "Symbol"}}
+	typedFrom := len(units)
+	for _, ty := range typedTys {
+		var cand []M
+		cand = append(cand, uni[:len(Leaves())]...)
+		for k := 0; k < c.Pick(25, 120); k++ {
+			cand = append(cand, uni[c.Rand.Intn(len(uni))])
+		}
+		for _, p := range cand {
+			if mayMatch(p, ty) {
+				add(ty, []M{p}, "switch")
+			}
+		}
+	}
+	typedUnits := map[string]bool{}
+	for _, u := range units[typedFrom:] {
+		typedUnits[u.sw.fname()] = true
 	}
 	nSwitchUnits := len(units)
 
@@ -504,7 +526,7 @@ func run(c *core.Ctx) error {
 		res  *batchResult
 	}
 	var mismatches []*mism
-	compared, ood, exhChecked := 0, 0, 0
+	compared, ood, exhChecked, typedOOD := 0, 0, 0, 0
 	reported := map[string]bool{}
 	check := func(us []*unit, res *batchResult) error {
 		for _, u := range us {
@@ -525,6 +547,10 @@ func run(c *core.Ctx) error {
 				continue
 			}
 			if d, ok := res.rejected[fn]; ok {
+				if typedUnits[fn] {
+					typedOOD++ // the checker proved the pattern cannot match the static type
+					continue
+				}
 				ood++
 				if ood <= 5 {
 					c.Note(fmt.Sprintf("out of domain (rejected): %s: %s", describe(u.sw), firstLine(d)))
@@ -555,6 +581,7 @@ func run(c *core.Ctx) error {
 						r := rec("exhaustive_escape", fmt.Sprintf("checker accepted `%s` as catching every %s, but %s escapes (spec: no case matches)",
 							describe(u.sw), TyText(u.sw.Ty), ValText(vals[vi-1])))
 						r["value"] = ValText(vals[vi-1])
+						r["observed"] = o.Raw
 						r["interpolated_literal"] = hasInterp(u.sw)
 						c.Violation(r)
 					}
@@ -640,6 +667,8 @@ func run(c *core.Ctx) error {
 	c.CovAdd("catch_lists_claimed_exhaustive", claimed)
 	c.CovAdd("exhaustive_behaviours_checked", exhChecked)
 	c.CovAdd("out_of_domain", ood+catchOOD)
+	c.CovAdd("typed_switches", len(typedUnits))
+	c.CovAdd("typed_switches_rejected_as_impossible", typedOOD)
 	c.Logf("compared=%d differences=%d out_of_domain=%d violations=%d", compared, len(mismatches), ood, c.Violations())
 	if ood*10 > len(units) {
 		return core.Inconclusivef("%d of %d emitted functions were rejected by the checker: the generator left the domain", ood, len(units))
